@@ -65,6 +65,14 @@ def check(ctx):
     for f in tx:
         check_retry(ctx, P, f)
         check_offline_reset(ctx, P, f)
+    # the retry counter (which also selects "new message cycle" vs. "retransmission" and drives the Offline verdict) belongs to the
+    # request/reply cycle: nothing but the transmit and reply handlers may write it
+    wr = sorted({u["fn"].name for u in mut_uses_of_field(P, CR, "retry_count", "u8") if u["kind"] in ("assign", "refmut", "calldest") and not u["fn"].j.get("derived")})
+    allowed = {f.name for f in tx} | {f.name for f in P.crate_fns(CR) if f.module == "dp::peripheral" and f.kind == "assoc"
+                                      and f.locals[0]["ty"].startswith("std::option::Option<dp::peripheral::PeripheralEvent>")}
+    ctx.ob("a.retry", "writers-of-retry-count", bool(wr) and set(wr) <= allowed,
+           "Peripheral.retry_count is written outside the transmit / reply handlers (%s): a retransmission can be turned into a new message cycle "
+           "with the old frame count bit, and the Offline verdict can be postponed without bound" % sorted(set(wr) - allowed), "")
     rx = [f for f in P.crate_fns(CR) if f.module == "dp::peripheral" and f.kind == "assoc"
           and f.locals[0]["ty"].startswith("std::option::Option<dp::peripheral::PeripheralEvent>")
           and any("Telegram" in l["ty"] for l in f.locals[1:f.argc + 1])]
